@@ -244,13 +244,19 @@ structure Solution where
 
 def sameSet (a b : List String) : Bool := a.all (b.contains ·) && b.all (a.contains ·)
 
+/-- `is_natural_number(state.time_step) ... if hasattr(state, "time_step")` (trajectory.py:60-62) -/
+def timeNatural (s : State) : Bool :=
+  match getattr s "time_step" with
+  | some (.time t) => decide (0 ≤ t)
+  | Option.none => true
+  | _ => false
+
 /-- `Trajectory.__init__` / `check_state_list` (trajectory.py:28-72) -/
 def mkTraj (init : Int) (states : List State) : Res Traj :=
   match states with
   | [] => .error .assert                                            -- len(state_list) >= 1
   | s0 :: _ =>
-    if !(states.all fun s => match getattr s "time_step" with        -- is_natural_number(time_step)
-          | some (.time t) => decide (0 ≤ t) | Option.none => true | _ => false) then .error .assert
+    if !(states.all timeNatural) then .error .assert
     else if !(states.all fun s => sameSet (usedAttrs s0) (usedAttrs s)) then .error .assert
     else match getattr s0 "time_step" with
       | some (.time t) => if t = init then .ok ⟨init, states⟩ else .error .assert
@@ -588,11 +594,14 @@ def kindOK : XName → FVal → Bool
   | .one n, .num _ => n != "time"
   | _, _ => false
 
+/-- the field of a table entry is present with the right kind of value -/
+def entryOK (st : State) (e : XName × String) : Bool :=
+  match getattr st e.2 with
+  | some v => kindOK e.1 v
+  | Option.none => false
+
 /-- every field of the table is present with the right kind of value -/
-def typedFor (tb : List (XName × String)) (st : State) : Bool :=
-  tb.all fun e => match getattr st e.2 with
-    | some v => kindOK e.1 v
-    | Option.none => false
+def typedFor (tb : List (XName × String)) (st : State) : Bool := tb.all (entryOK st)
 
 def goodTraj (T : TType) (tr : Traj) : Bool :=
   tr.states.all (typedFor (table T)) &&
@@ -700,17 +709,21 @@ def validate (lx : Lex) (sch : Schema) (r : RootNode) : Bool :=
   r.tag == sch.root && (sch.attrs.lookup "benchmark_id").isSome && validAttrs lx sch.attrs r.attrs &&
   matchSeq lx sch.trajs r.trajs
 
+/-- position of a trajectory tag in a sequence of declarations -/
+def declIndex : List TrajDecl → String → Option Nat
+  | [], _ => Option.none
+  | d :: ds, t => if t == d.tag then some 0 else (declIndex ds t).map (· + 1)
+
 /-- position of a trajectory tag in the schema's sequence -/
-def schemaIndex (sch : Schema) (tag : String) : Option Nat := sch.trajs.findIdx? (·.tag == tag)
+def schemaIndex (sch : Schema) (tag : String) : Option Nat := declIndex sch.trajs tag
+
+def nondecr : List Nat → Bool
+  | [] => true
+  | a :: l => l.all (fun b => decide (a ≤ b)) && nondecr l
 
 /-- the solution lists only trajectory types the schema defines, in the order it defines them -/
-def inSchemaOrder (sch : Schema) : List String → Bool
-  | [] => true
-  | [a] => (schemaIndex sch a).isSome
-  | a :: b :: rest =>
-    (match schemaIndex sch a, schemaIndex sch b with
-     | some i, some j => decide (i ≤ j)
-     | _, _ => false) && inSchemaOrder sch (b :: rest)
+def inSchemaOrder (sch : Schema) (tags : List String) : Bool :=
+  tags.all (fun t => (schemaIndex sch t).isSome) && nondecr (tags.map fun t => (schemaIndex sch t).getD 0)
 
 /-! ## concrete lexical checkers (used by the driver on the real text) -/
 
